@@ -11,6 +11,8 @@
               without ':' and on the empty line; the body reader leaves its loop when the peer has closed
  C09.headers  setHeader / header / hasHeader all key through the same canonicalisation (case-insensitive lookup); a header's value is
               everything after the colon
+ C09.progress the loops that copy from a file or the socket (`n = x.read(...)` ... `count += n`) leave when the read yields 0: assuming 0,
+              no walk through evaluated / unchanged branches returns to the same read
  Termination/promptness for every truncated stream and fidelity of bodies are not decided."""
 import os
 import ir, q, bounded, cfg as cfgm, bytesets
@@ -35,6 +37,10 @@ def run(ctx):
     import C16
     C16.PROG = prog
     C16.check_partial(ctx, prog, rule='C09.partial', files=False)
+    # the file sender and the body reader end when their source is exhausted (a read that yields 0 leaves the loop)
+    import progress
+    n = progress.check(ctx, prog, 'C09.progress', ('Http.cpp', 'HttpServer.cpp'))
+    ctx.floor('C09.progress', n, 1)
     import nullret
     nullret.check(ctx, prog, 'C09', ('Http.cpp', 'HttpServer.cpp'))
     import litread
